@@ -81,8 +81,22 @@ func (p *KPlan) Valid() bool {
 	if p.Transport < 0 || p.Transport > 1 || p.ReplySize < 0 || p.ReplySize > 80 || len(p.Ops) > 80 || len(p.Tasks) > 4 {
 		return false
 	}
-	if p.Scenario == 18 && p.Transport != 1 {
-		// the transport property is about the real NetlinkClient
+	if (p.Scenario == 8 || p.Scenario == 17) && p.ReplySize < 32 {
+		return false // every supported kernel sends at least the 2.6.32 layout
+	}
+	if p.Scenario != 16 && p.Scenario != 18 {
+		for _, f := range p.Faults {
+			if f.DataTrunc != 0 || f.DataPad != 0 || f.AckShort != 0 || f.Spoof != 0 {
+				return false // malformed datagrams belong to the C16 / C18 scenarios
+			}
+		}
+	}
+	if p.Scenario == 17 {
+		for _, f := range p.Faults {
+			if f.Stale || f.DelayNs != 0 {
+				return false
+			}
+		}
 	}
 	for _, r := range p.Recv {
 		if r.N < 0 || r.N > 9 {
